@@ -82,6 +82,16 @@ func dnskeyMaterialFP(k *dns.DNSKEY) string {
 	return fmt.Sprintf("%d|%d|%s", k.Algorithm, k.Protocol, k.PublicKey)
 }
 
+// dnskeyIdentity identifies one DNSKEY exactly: its flags and its
+// cryptographic material. Two keys that merely share a 16-bit key tag
+// have different identities.
+func dnskeyIdentity(k *dns.DNSKEY) string {
+	if k == nil {
+		return ""
+	}
+	return fmt.Sprintf("%d|%s", k.Flags, dnskeyMaterialFP(k))
+}
+
 func (s State) String() string {
 	switch s {
 	case StateStart:
@@ -326,10 +336,16 @@ func (r *Resolver) AutoTA() {
 	}
 
 	kskFetched := make(TrustAnchors)
+	// fetchedKeys records which keys the RRset holds, by identity.
+	// kskFetched is keyed by tag and keeps one key per tag; whether a
+	// tracked key is still in the zone must not be answered by a
+	// different key that shares its tag.
+	fetchedKeys := make(map[string]bool)
 
 	for _, rr := range resp.Answer {
 		if dnskey, ok := rr.(*dns.DNSKEY); ok {
 			if dnskey.Flags&DNSKEYFlagKSK != 0 {
+				fetchedKeys[dnskeyIdentity(dnskey)] = true
 				keyTag := dnssec.KeyTag(dnskey)
 				ta := &TrustAnchor{
 					DNSKey: dnskey,
@@ -459,7 +475,7 @@ func (r *Resolver) AutoTA() {
 	// keys or to adjacent state changes.
 	if !revocationOnly {
 		for tag, ta := range kskCurrent {
-			if kskFetched[tag] == nil {
+			if !fetchedKeys[dnskeyIdentity(ta.DNSKey)] {
 				// RFC 5011 §4 state table: the KeyRem event's effect
 				// depends on the prior state.
 				switch ta.State {
